@@ -3,7 +3,6 @@ package sszgen
 import (
 	"bytes"
 	"encoding/hex"
-	"encoding/json"
 	"fmt"
 	"reflect"
 	"strings"
@@ -14,7 +13,6 @@ import (
 	"github.com/protolambda/zrnt/eth2/configs"
 	"github.com/protolambda/ztyp/codec"
 	"github.com/protolambda/ztyp/tree"
-	"gopkg.in/yaml.v3"
 )
 
 // Preset: a configuration under which every type is exercised.
@@ -116,6 +114,9 @@ type Obs struct {
 	JSONOk    bool
 	YAMLOk    bool
 	JSONNote  string
+	TextNotes []string
+	KeyNotes  []string
+	CanonNotes []string
 	YAMLNote  string
 }
 
@@ -185,6 +186,11 @@ func encode(o common.SSZObj) ([]byte, error) {
 
 // Observe runs the struct form and (when there is one) the view form on input.
 func Observe(e *Entry, p *Preset, input []byte, textForms bool) (obs Obs) {
+	return ObserveVal(e, p, input, textForms, nil)
+}
+
+// ObserveVal: as Observe; val (optional) is the value the input encodes, for the canonical text form.
+func ObserveVal(e *Entry, p *Preset, input []byte, textForms bool, val *Val) (obs Obs) {
 	obj := e.New()
 	o, err := sszOf(p.Spec, obj)
 	if err != nil {
@@ -217,8 +223,9 @@ func Observe(e *Entry, p *Preset, input []byte, textForms bool) (obs Obs) {
 			return
 		}
 		if textForms {
-			obs.JSONOk, obs.JSONNote = textRoundTrip(e, p, obj, input, json.Marshal, json.Unmarshal)
-			obs.YAMLOk, obs.YAMLNote = textRoundTrip(e, p, obj, input, yaml.Marshal, yaml.Unmarshal)
+			tr := TextChecks(e, p, obj, input, val)
+			obs.JSONOk, obs.YAMLOk = tr.JSONOk, tr.YAMLOk
+			obs.TextNotes, obs.KeyNotes, obs.CanonNotes = tr.Notes, tr.KeyNotes, tr.CanonNotes
 		} else {
 			obs.JSONOk, obs.YAMLOk = true, true
 		}
@@ -242,42 +249,6 @@ func Observe(e *Entry, p *Preset, input []byte, textForms bool) (obs Obs) {
 		if pan {
 			obs.ViewPanic, obs.ViewErr = true, fmt.Sprint(pv)
 		}
-	}
-	return
-}
-
-// marshal obj to text, unmarshal into a fresh object, serialize: must give the input bytes again
-func textRoundTrip(e *Entry, p *Preset, obj interface{}, input []byte,
-	marshal func(interface{}) ([]byte, error), unmarshal func([]byte, interface{}) error) (ok bool, note string) {
-	pan, pv := hx.Catch(func() {
-		txt, err := marshal(obj)
-		if err != nil {
-			note = "marshal: " + err.Error()
-			return
-		}
-		fresh := e.New()
-		if err := unmarshal(txt, fresh); err != nil {
-			note = "unmarshal: " + err.Error()
-			return
-		}
-		o2, err := sszOf(p.Spec, fresh)
-		if err != nil {
-			note = err.Error()
-			return
-		}
-		b, err := encode(o2)
-		if err != nil {
-			note = "serialize after unmarshal: " + err.Error()
-			return
-		}
-		if !bytes.Equal(b, input) {
-			note = "value changed by the text round trip"
-			return
-		}
-		ok = true
-	})
-	if pan {
-		return false, fmt.Sprint("panic: ", pv)
 	}
 	return
 }
@@ -320,6 +291,9 @@ func (o *Obs) JSON() map[string]interface{} {
 		m["root"] = hex.EncodeToString(o.Root[:])
 		m["reserialized"] = hex.EncodeToString(o.Reser)
 		m["json_ok"], m["yaml_ok"] = o.JSONOk, o.YAMLOk
+		if len(o.TextNotes) > 0 {
+			m["text_notes"] = o.TextNotes
+		}
 		if o.JSONNote != "" {
 			m["json_note"] = o.JSONNote
 		}
